@@ -604,6 +604,8 @@ class Interp:
     def tdiv(a, b):
         """Rust truncating division on z3 Ints (z3's `/` on Int is Euclidean-style)."""
         ca, cb = concrete(a), concrete(b)
+        if cb == 0:
+            return zint(0)   # callers guard division by zero (checked_* models / MIR Assert); keep the term total
         if ca is not None and cb is not None:
             q = abs(ca) // abs(cb)
             return zint(q if (ca >= 0) == (cb >= 0) else -q)
@@ -639,11 +641,17 @@ class Interp:
             r = {"A": x + y, "S": x - y, "M": x * y}[op[0]]
             lo, hi = int_range(ty)
             ov = z3.Or(r < lo, r > hi)
-            return StructV("(%s, bool)" % ty, [IntV(self.wrap(r, ty), ty), BoolV(ov)])
+            # rustc lowers checked arithmetic to `t = OpWithOverflow(a, b); assert(!t.1) -> bb; use t.0`:
+            # t.0 is only read after the assert, where the exact result is in range, so it is kept unwrapped
+            # (keeps the terms free of wrap-around ites). The overflow flag itself is exact.
+            return StructV("(%s, bool)" % ty, [IntV(r, ty), BoolV(ov)])
         if op in ("Add", "Sub", "Mul", "AddUnchecked", "SubUnchecked", "MulUnchecked"):
             r = {"A": x + y, "S": x - y, "M": x * y}[op[0]]
             return IntV(self.wrap(r, ty), ty)
         if op == "Div":
+            cy = concrete(y)
+            if cy is not None and cy != -1:
+                return IntV(self.tdiv(x, y), ty)     # cannot leave the range
             return IntV(self.wrap(self.tdiv(x, y), ty), ty)
         if op == "Rem":
             return IntV(self.trem(x, y), ty)
@@ -681,6 +689,10 @@ class Interp:
                 return IntV(self.wrap(v.discr, to), to)
             if to == "bool":
                 raise Refuse("int to bool cast")
+            if v.kind == "int" and is_int_ty(v.ty) and is_int_ty(to):
+                (slo, shi), (tlo, thi) = int_range(v.ty), int_range(to)
+                if tlo <= slo and shi <= thi:
+                    return IntV(v.term, to)          # widening cast: value unchanged
             return IntV(self.wrap(v.term, to), to)
         if kind in ("PointerCoercion(Unsize, Implicit)", "PointerCoercion(Unsize, AsCast)", "Transmute", "PtrToPtr"):
             if v.kind == "ref":
